@@ -174,7 +174,7 @@ func queryMutants(rng *rand.Rand, corpus []string, perText int, structural bool)
 				d = append(d[:o+n], d[o:]...)
 				out = append(out, Mutant{Class: "dup", Where: "query", Data: d})
 			case 5: // wrap in nesting
-				k := []int{3, 30, 300}[rng.Intn(3)]
+				k := []int{3, 20, 100}[rng.Intn(3)]
 				w := [][2]string{{"(", ")"}, {"[", "]"}, {"{a:", "}"}, {"not ", ""}, {"-", ""}, {"over this => (", ")"}, {"f(", ")"}, {"|[", "]|"}}[rng.Intn(8)]
 				d = []byte(strings.Repeat(w[0], k) + string(d) + strings.Repeat(w[1], k))
 				out = append(out, Mutant{Class: "nest", Where: "query", Note: w[0], Data: d})
